@@ -164,6 +164,12 @@ func c06Specials() []*gen.Expr {
 		gen.Func("merge", gen.LitJSON("{}"), gen.Field("o"), gen.LitJSON("{}"), gen.Field("o2"), gen.LitJSON("{}")),
 		gen.Func("merge", gen.Field("o"), gen.Chain(gen.Field("o"), gen.StField("missing")), gen.Field("o2")),
 		gen.Func("merge", gen.Field("o"), gen.Field("o")),
+		// a multi-select hash that names exactly the members of the object it is applied to, as the first argument of merge
+		gen.Pipe(gen.Chain(gen.Field("o"), gen.StField("o")), gen.Func("merge", gen.MultiHash(keyA("n"), []*gen.Expr{gen.Field("n")}), gen.LitJSON(`{"seen":true}`))),
+		gen.Chain(gen.Field("ao"), gen.StListStar(), gen.StField("o"), gen.StFunc("merge", gen.MultiHash(keyA("n"), []*gen.Expr{gen.Field("n")}), gen.MultiHash(keyA("x"), []*gen.Expr{gen.Field("n")}))),
+		gen.Chain(gen.Field("sorted"), gen.StListStar(), gen.StFunc("merge", gen.MultiHash([]gen.Key{{Name: "n"}, {Name: "s"}}, []*gen.Expr{gen.Field("n"), gen.Field("s")}), gen.LitJSON(`{"n":0}`))),
+		gen.Chain(gen.Field("o2"), gen.StMultiHash([]gen.Key{{Name: "s"}, {Name: "z"}, {Name: "n"}}, []*gen.Expr{gen.Field("s"), gen.Field("z"), gen.Field("n")})),
+		gen.Func("merge", gen.Chain(gen.Field("oz"), gen.StMultiHash([]gen.Key{{Name: "n"}, {Name: "an"}}, []*gen.Expr{gen.Field("n"), gen.Field("an")})), gen.LitJSON(`{"an":[]}`)),
 		gen.Func("merge", gen.Field("o"), gen.MultiHash(keyA("n"), []*gen.Expr{gen.Field("n")}), gen.Field("o")),
 		gen.Chain(gen.Field("ao"), gen.StListStar(), gen.StFunc("merge", gen.Current(), gen.Field("o"), gen.MultiHash(keyA("seen"), []*gen.Expr{gen.Field("s")}))),
 		gen.Func("not_null", gen.Field("z"), gen.Field("z"), gen.Field("ao")),
